@@ -221,7 +221,7 @@ def _run_fuzz(job):
     res = conv.convert_case({"input": inp, "kwargs": kw, "events": False, "pass_warnings": job["idx"] % 2 == 0, "allow_malformed": True})
     cfg = {"lists": [], "formname": "data", "omitid": False, "iname": False, "entity": False, "entlabel": False}
     trace = [{"ev": "init", "cfg": cfg, "nwarn0": 0},
-             {"ev": "end", "status": res["status"], "cited": [], "mentions": [], "has_xform": bool(res.get("xform")), "residual": 0,
+             {"ev": "end", "status": res["status"], "cited": [], "mentions": [], "has_xform": bool(res.get("xform")), "residual": 0, "outrefs": [],
               "obs": {"inst": [], "body": [], "binds": [], "actions": [], "setv": [], "root": ""}, "src": {"binds": [], "defaults": [], "triggers": []}}]
     return {"idx": job["idx"], "seed": job["seed"], "fmt": fmt, "wb": wb, "res": {k: v for k, v in res.items() if k not in ("xform", "events")}, "trace": trace}
 
